@@ -23,6 +23,12 @@ CLAIMED = {
         text="Theorems: the fast-path comparison of SubFieldView equals the comparison of the unpacked field value for every table mask, byte, operator and integer constant of any magnitude or sign (finite core by kernel evaluation, lifted by arithmetic); indexing commutes with materialisation; element-position indexing of scaled multi-element views uses that element's scale/offset; the views' min/max equal the extrema of the materialised values for every positive scale (exact arithmetic). Operators that ArrayView forwards to numpy are delegations: they are checked differentially against numpy itself (exhaustive for comparisons over constants and numpy scalar dtypes, seeded for the rest). Partial: numpy's operator semantics are not modelled.",
         note="Trusted: Lean kernel; translator tables; numpy as the reference for delegated operators; IEEE monotonicity of x*s+o for s>0 (min/max on float64 follows from it; exact-arithmetic version is the theorem). Expressions that numpy rejects or that raise on the view are skipped and counted.",
         design="6 (C10)"),
+    "C08": dict(
+        engine="codec",
+        technique="Lean 4 proof of the VLR/EVLR framing round trip (induction over the record list, string-field and little-endian lemmas) and of normal-form idempotence for the known record types; byte-exact correspondence with VLRList.write_to/read_from",
+        text="Theorems for every list of well-formed records (ids up to the full 16 bytes, descriptions up to 32, any payload; 2-byte length for VLRs, 8-byte for EVLRs): the written bytes are read back as the same list in order and the reader consumes exactly header+payload bytes; an over-long VLR payload makes the whole write fail; for each known type the re-serialised payload is a fixed point of parse-then-serialise (content stable), three types are exact inverses, and unparsable or unknown records are kept verbatim. The model's encoder/decoder are compared byte for byte with the real classes on seeded record lists, known-type payloads well-formed and malformed, and through file round trips. Partial: idempotence for the classification lookup is validated by correspondence only (no theorem yet).",
+        note="Trusted: Lean kernel; generated field widths; ASCII restriction of the generator for WKT / lookup names (UTF-8 validity is modelled as ASCII-only; invalid sequences are exercised as malformed); ids ('copc',1) and ('copc',1000) reserved (COPC classes refuse to serialise).",
+        design="6 (C08)"),
 }
 NOT_YET = "check not built yet in this round (planned per DESIGN.md section 10); not claimed until its theorems build and its check is quiet"
 
@@ -56,6 +62,7 @@ manifest = {
         "add_only": True,
     },
     "engines": [
+        {"name": "codec", "path": "harness/props/", "serves_properties": ["C07", "C08", "C02"], "kind_free_text": "Lean byte-level codecs (little-endian ints, fixed-width strings, dates, VLR framing, header) with round-trip theorems + byte-exact correspondence with the real serialisers"},
         {"name": "bits", "path": "harness/props/", "serves_properties": ["C20", "C09", "C10"], "kind_free_text": "Lean theorems over generated tables/functions + exhaustive translation validation and correspondence through lean/Driver.lean"},
     ],
     "checks": checks,
